@@ -378,6 +378,45 @@ func checkC19(c *km.Ctx) {
 			r.Add("R-C19-4", "client key generation", "server pattern admits the "+k+" key line", offered[k], sprintf("the server's key-file pattern matches \"%s <base64 of a %d byte blob, %d padding characters>[ comment][\\n]\"", k, n, pad), sprintf("not matched: %v", missed), okAll)
 		}
 	}
+	// an enumeration of SSH key types on the server's issuing path is complete: where server code compares the
+	// submitted key's type with two or more of the types the client offers, it names all of them (a switch whose
+	// default refuses must not leave an offered type out)
+	algos := map[string]bool{"ssh-rsa": true, "ssh-ed25519": true, "ecdsa-sha2-nistp256": true, "ecdsa-sha2-nistp384": true, "ecdsa-sha2-nistp521": true}
+	for _, fn := range c.P.AllFuncs {
+		if fn.Pkg == nil || fn.Pkg.Pkg.Path() != KMD {
+			continue
+		}
+		named := map[string]bool{}
+		var at ssa.Instruction
+		km.Instrs(fn, func(in ssa.Instruction) {
+			b, ok := in.(*ssa.BinOp)
+			if !ok || (b.Op != token.EQL && b.Op != token.NEQ) {
+				return
+			}
+			for _, side := range []ssa.Value{b.X, b.Y} {
+				if cs, isC := km.ConstString(side); isC && algos[cs] {
+					named[cs] = true
+					at = in
+				}
+			}
+		})
+		nOffered := 0
+		for _, k := range names {
+			if named[k] {
+				nOffered++
+			}
+		}
+		if nOffered < 2 {
+			continue
+		}
+		var missing []string
+		for _, k := range names {
+			if algos[k] && !named[k] {
+				missing = append(missing, k)
+			}
+		}
+		r.Add("R-C19-4", km.FuncName(fn), "SSH key type enumeration covers every offered type", posOf(c, at), "a server-side enumeration of SSH key types that names two or more offered types names all of them", sprintf("missing=%v", missing), len(missing) == 0)
+	}
 	r.Add("R-C19-4", "client key generation", "RSA key size", "-", "constant >= 2048 bits (server requires Size() >= 256 bytes)", sprintf("%d", rsaBits), rsaBits >= 2048)
 }
 
